@@ -29,4 +29,31 @@ C03|all) $MK C03 "C03 — soil water content and ponding stay within physical li
   DrainageR.drainage_bounds InfiltrationR.infiltration_bounds EvaporationR.evaporation_bounds EvaporationR.evaporation_surface_bounds GroundwaterR.capillary_in_bounds_eps GroundwaterR.capillary_in_bounds GroundwaterR.capillary_in_bounds_refuted GroundwaterR.gw_inflow_in_bounds RootsR.pre_irrigation_bounds RootZoneR.root_zone_water_nonneg $TR03 ;;&
 C04|all) $MK C04 "C04 — fluxes are non-negative and actual never exceeds potential (per-process sign/order theorems over exact reals)." "$WT" \
   RainIrrR.irr_nonneg RainIrrR.irr_off_season_zero RainIrrR.scs_split=runoff_nonneg_split InfiltrationR.runoff_lower=infiltration_runoff_nonneg InfiltrationR.deep_perc_nonneg=infiltration_deep_perc_nonneg DrainageR.drainage_deep_perc_nonneg DrainageR.drainage_flux_nonneg GroundwaterR.cr_nonneg GroundwaterR.gwin_nonneg EvaporationR.es_le_pot EvaporationR.espot_nonneg EvaporationR.es_invariant $TR04 ;;&
+C05|all) $MK C05 "C05 — crop state stays inside its configured envelope: canopy (invariant over every assignment site, any sequence of days), roots (any profile incl. restrictive layers), harvest index, biomass (models Crop/Canopy.v, Crop/Roots.v, Crop/Yield.v; gdd range/monotonicity is C17's growing_degree_day)." "$BASE
+From AC.Water Require Import RootZone.
+From AC.Crop Require Import Canopy Roots Yield.
+From AC.proofs Require Import ProfR KernelsR CanopyR RootsR YieldR." \
+  CanopyR.canopy_inv_step CanopyR.canopy_inv_run CanopyR.cc_le_ns CanopyR.off_season_zero=canopy_off_season_zero CanopyR.ccx_act_le_refuted CanopyR.cc_ns_step_refuted \
+  RootsR.root_range RootsR.root_monotone RootsR.root_first_day RootsR.root_above_table RootsR.root_off_season RootsR.root_range_weak_refuted RootsR.root_above_table_surface_refuted \
+  YieldR.biomass_monotone YieldR.biomass_off_season YieldR.hi_ref_le_HI0 YieldR.hi_ref_nonneg YieldR.hi_ref_monotone YieldR.harvest_index_invariant YieldR.hi_core_invariant YieldR.hi_adj_le_refuted KernelsR.gdd_range KernelsR.gdd_monotone ;;&
+C06|all) $MK C06 "C06 — yields and seasonal totals agree with the daily tables: biomass gain identity, yield identities (Crop/Yield.v); one summary row per harvested season, in season order, written on its harvest step from that day's state (Clock.v, for EVERY physics)." "$BASE
+From AC Require Import Clock.
+From AC.Crop Require Import Yield.
+From AC.proofs Require Import YieldR ClockP." \
+  YieldR.biomass_gain YieldR.biomass_defined YieldR.yield_identities ClockP.perform_sums_inv ClockP.run_steps_summary ClockP.perform_summary_row ClockP.init_model_inv ;;&
+C08|all) $MK C08 "C08 — seasons are independent when the off-season is not simulated: the reset assigns every state field that is live at a season start (tables regenerated from /repo's source on every run by harness/gen_facts.py)." "From Coq Require Import String List Bool.
+From AC.gen Require Import StateFields StoreSites.
+From AC.proofs Require Import GenFactsOK.
+Import ListNotations." \
+  state_fields_nodup reset_fields_subset reset_fields_maybe_empty reset_guards_are_off_season reset_fields_covered reset_weather_guard_ok reset_crop_fields_whitelisted carried_fields_whitelisted carried_fields_whitelisted_strict thini_never_written ;;&
+C10|all) $MK C10 "C10 — runs are deterministic and model instances are isolated (the part a theorem can carry): no store site of the package writes a module-level object, a default-argument object or a class attribute (store-site table regenerated from /repo's source on every run)." "From Coq Require Import String List Bool.
+From AC.gen Require Import StateFields StoreSites.
+From AC.proofs Require Import GenFactsOK.
+Import ListNotations." \
+  stores_allowed stores_allowed_In no_store_on_module_globals global_store_sites_exact no_store_on_default_args escaped_defaults_never_written_in_place table_sizes ;;&
+C12|all) $MK C12 "C12 — configured parameters and weather stay read-only while stepping: no store site in aquacrop.solution.* / aquacrop.timestep.* is rooted at the profile, soil, management, groundwater, weather or clock-date objects (enumerated exceptions: season-start crop calendar/CO2, clock counters); store-site table regenerated from /repo on every run." "From Coq Require Import String List Bool.
+From AC.gen Require Import StateFields StoreSites.
+From AC.proofs Require Import GenFactsOK.
+Import ListNotations." \
+  no_param_store_while_stepping stepping_roots_closed solution_stores_state_only state_stores_declared th_fc_Adj_only_reassigned reset_crop_fields_whitelisted stores_allowed ;;&
 esac
